@@ -5,6 +5,7 @@ Property theorems only; helper lemmas live in Proofs/Reindex.lean.
 a statement about `triangles` is therefore a statement about corner positions *and* every attached datum.
 -/
 import TrimeshVerif.Proofs.Reindex
+import TrimeshVerif.Generated.C07Table
 namespace TV.C07
 open TV TV.Reindex
 
@@ -113,5 +114,17 @@ theorem C07_unique_faces (m : Mesh α β) (i : Nat) (hi : i < m.F.length) :
 /-! non-vacuity (a test, labelled as such) -/
 example : let m : Mesh Nat Unit := { V := [10, 11, 12, 13, 14], F := [(1, 2, 4), (4, 2, 1)], FA := [(), ()] }
     triangles (removeUnreferenced m) = triangles m ∧ (removeUnreferenced m).V = [11, 12, 14] := by decide
+
+
+/-! ### (G) what the masking methods of the source slice -/
+
+/-- (G) **every array attached to faces / vertices is sliced alongside them in the current source**:
+    `update_faces(mask)` indexes the faces, the cached face normals, every face attribute and the visual with the
+    mask; `update_vertices(mask)` the vertices, the cached vertex normals, every vertex attribute and the visual, and
+    re-points the faces through `inverse` - the payloads of `C07_update_faces_bool / _idx`, `C07_update_vertices_bool` -/
+theorem C07_masking_slices_every_payload :
+    TV.Generated.C07.updateFacesSlices = ["face_attributes", "face_normals", "faces", "visual"] ∧
+    TV.Generated.C07.updateVerticesSlices =
+      ["faces<-inverse", "vertex_attributes", "vertex_normals", "vertices", "visual"] := by decide
 
 end TV.C07
